@@ -81,6 +81,7 @@ package exif2
 //@   ensures [C01 C08] err == nil ==> len(buf) == n
 //@   ensures [C03 C08] err == nil ==> forall k int :: 0 <= k && k < n ==> buf[k] == data(ir.reader, old(pos(ir.reader)) + k)
 //@   ensures [C03] err == nil ==> ir.po == old(ir.po) + uint32(n)
+//@   ensures [C03] err != nil ==> forall k int :: 0 <= k && k < len(buf) ==> buf[k] == data(ir.reader, pos(ir.reader) + k)
 
 //@ func (*ifdReader).discard
 //@   props C01 C02 C08 C06 C03
@@ -103,6 +104,7 @@ package exif2
 //@   ensures [C02] pos(ir.reader) >= old(pos(ir.reader))
 //@   ensures [C01] err == nil ==> len(buf) == int(ir.buffer.tag[ir.buffer.pos].Size())
 //@   ensures [C03] err == nil ==> forall k int :: 0 <= k && k < len(buf) ==> buf[k] == data(ir.reader, pos(ir.reader) - len(buf) + k)
+//@   ensures [C03] err != nil ==> forall k int :: 0 <= k && k < len(buf) ==> buf[k] == data(ir.reader, pos(ir.reader) + k)
 //@   ensures [C03] err == nil && ir.buffer.tag[ir.buffer.pos].ValueOffset >= old(ir.po) && ir.buffer.tag[ir.buffer.pos].ValueOffset <= ir.exifLength ==> ir.po == ir.buffer.tag[ir.buffer.pos].ValueOffset + uint32(len(buf))
 
 //@ func (*ifdReader).seekToTag
@@ -151,18 +153,30 @@ package exif2
 //@   ensures [C02] pos(ir.reader) >= old(pos(ir.reader))
 
 //@ func (*ifdReader).ParseGPSAltitude
-//@   props C01 C02 C06
+//@   props C01 C02 C06 C03
 //@   requires tagPre(ir, t)
 //@   modifies ir.po, stream(ir.reader), ir.buffer.buf
 //@   ensures [C06] anchor(ir) == old(anchor(ir))
 //@   ensures [C02] pos(ir.reader) >= old(pos(ir.reader))
+//@   ensures [C03] isRatN(t, 1) ==> same(r0, float32(0)) || same(r0, float32(vnum(ir, t, 0))/float32(vnum(ir, t, 1)))
+//@   ensures [C03] !isRatN(t, 1) ==> same(r0, float32(0)) && pos(ir.reader) == old(pos(ir.reader))
+
+// the k-th 32-bit number of the out-of-line value that ends at the current position
+//@ spec vnum(ir, t, k) = u32ord(t.ByteOrder, ir.reader, vstart(ir, t) + 4*k)
+//@ spec vnumBE(ir, t, k) = be32At(ir.reader, vstart(ir, t) + 4*k)
+//@ spec vnumLE(ir, t, k) = le32At(ir.reader, vstart(ir, t) + 4*k)
+//@ spec isRatN(t, n) = (t.Type == tag.TypeRational || t.Type == tag.TypeSignedRational) && t.UnitCount == n
 
 //@ func (*ifdReader).ParseGPSCoord
-//@   props C01 C02 C06
+//@   props C01 C02 C06 C03
 //@   requires tagPre(ir, t)
 //@   modifies ir.po, stream(ir.reader), ir.buffer.buf
 //@   ensures [C06] anchor(ir) == old(anchor(ir))
 //@   ensures [C02] pos(ir.reader) >= old(pos(ir.reader))
+//@   // degrees + minutes/60 + seconds/3600 from three RATIONALs (Exif 2.32 4.6.6, GPSLatitude/GPSLongitude); the hemisphere sign is applied by GPSInfo.Latitude/Longitude
+//@   ensures [C03] isRatN(t, 3) && t.ByteOrder == utils.BigEndian ==> same(r0, float64(0)) || same(r0, float64(vnumBE(ir, t, 0))/float64(vnumBE(ir, t, 1)) + float64(vnumBE(ir, t, 2))/float64(vnumBE(ir, t, 3))/60.0 + float64(vnumBE(ir, t, 4))/float64(vnumBE(ir, t, 5))/3600.0)
+//@   ensures [C03] isRatN(t, 3) && t.ByteOrder != utils.BigEndian ==> same(r0, float64(0)) || same(r0, float64(vnumLE(ir, t, 0))/float64(vnumLE(ir, t, 1)) + float64(vnumLE(ir, t, 2))/float64(vnumLE(ir, t, 3))/60.0 + float64(vnumLE(ir, t, 4))/float64(vnumLE(ir, t, 5))/3600.0)
+//@   ensures [C03] !isRatN(t, 3) ==> same(r0, float64(0)) && pos(ir.reader) == old(pos(ir.reader))
 
 //@ func (*ifdReader).ParseOffsetTime
 //@   props C01 C02 C06
@@ -189,19 +203,27 @@ package exif2
 //@   ensures [C03] isRat(t) ==> (r0[0] == 0 && r0[1] == 0) || (r0[0] == ratNum(ir, t) && r0[1] == ratDen(ir, t))
 //@   ensures [C03] !(t.Type == tag.TypeRational || t.Type == tag.TypeSignedRational) ==> r0[0] == 0 && r0[1] == 0 && pos(ir.reader) == old(pos(ir.reader))
 
+//@ spec isAsciiOut(t) = (t.Type == tag.TypeASCII || t.Type == tag.TypeASCIINoNul) && !t.IsEmbedded()
+//@ spec vstart(ir, t) = pos(ir.reader) - int(t.Size())
+
 //@ func (*ifdReader).ParseString
-//@   props C01 C02 C06
+//@   props C01 C02 C06 C03
 //@   requires tagPre(ir, t)
 //@   modifies ir.po, stream(ir.reader), ir.buffer.buf
 //@   ensures [C06] anchor(ir) == old(anchor(ir))
 //@   ensures [C02] pos(ir.reader) >= old(pos(ir.reader))
+//@   ensures [C03] isAsciiOut(t) ==> (forall k int :: 0 <= k && k < len(r0) ==> r0[k] == data(ir.reader, vstart(ir, t) + k)) || (forall k int :: 0 <= k && k < len(r0) ==> r0[k] == data(ir.reader, pos(ir.reader) + k))
+//@   ensures [C03] isAsciiOut(t) && len(r0) > 0 ==> !isTrim(r0[len(r0)-1])
 
 //@ func (*ifdReader).ParseBuffer
-//@   props C01 C02 C06
+//@   props C01 C02 C06 C03
 //@   requires tagPre(ir, t)
 //@   modifies ir.po, stream(ir.reader), ir.buffer.buf
 //@   ensures [C06] anchor(ir) == old(anchor(ir))
 //@   ensures [C02] pos(ir.reader) >= old(pos(ir.reader))
+//@   ensures [C03] isAsciiOut(t) ==> forall k int :: 0 <= k && k < len(r0) ==> r0[k] == data(ir.reader, vstart(ir, t) + k)
+//@   ensures [C03] isAsciiOut(t) && len(r0) > 0 ==> len(r0) <= int(t.Size()) && !isTrim(r0[len(r0)-1])
+//@   ensures [C03] isAsciiOut(t) && len(r0) > 0 ==> forall k int :: len(r0) <= k && k < int(t.Size()) ==> isTrim(data(ir.reader, vstart(ir, t) + k))
 
 //@ func (*ifdReader).ParseSubSecTime
 //@   props C01 C02 C06
@@ -253,11 +275,24 @@ package exif2
 //@   ensures [C02] pos(ir.reader) >= old(pos(ir.reader))
 
 //@ func (*ifdReader).parseGPSTimeStamp
-//@   props C01 C02 C06
+//@   props C01 C02 C06 C03
 //@   requires tagPre(ir, t)
 //@   modifies ir.po, stream(ir.reader), ir.buffer.buf
 //@   ensures [C06] anchor(ir) == old(anchor(ir))
 //@   ensures [C02] pos(ir.reader) >= old(pos(ir.reader))
+//@   // hours, minutes, seconds as three RATIONALs -> seconds of the day (whole-number quotients; a zero denominator contributes 0).
+//@   // The six numbers are exposed as ghost results so that 'read correctly' and 'combined correctly' are separate obligations.
+//@   ghost okv bool = t.UnitCount == 3 && t.Type == tag.TypeRational && err == nil
+//@   ghost v0 uint32 = value[0]
+//@   ghost v1 uint32 = value[1]
+//@   ghost v2 uint32 = value[2]
+//@   ghost v3 uint32 = value[3]
+//@   ghost v4 uint32 = value[4]
+//@   ghost v5 uint32 = value[5]
+//@   ensures [C03] okv && t.ByteOrder == utils.BigEndian ==> v0 == vnumBE(ir, t, 0) && v1 == vnumBE(ir, t, 1) && v2 == vnumBE(ir, t, 2) && v3 == vnumBE(ir, t, 3) && v4 == vnumBE(ir, t, 4) && v5 == vnumBE(ir, t, 5)
+//@   ensures [C03] okv && t.ByteOrder != utils.BigEndian ==> v0 == vnumLE(ir, t, 0) && v1 == vnumLE(ir, t, 1) && v2 == vnumLE(ir, t, 2) && v3 == vnumLE(ir, t, 3) && v4 == vnumLE(ir, t, 4) && v5 == vnumLE(ir, t, 5)
+//@   ensures [C03] okv ==> r0 == ite(v1 > 0, v0/v1*3600, 0) + ite(v3 > 0, v2/v3*60, 0) + ite(v5 > 0, v4/v5, 0)
+//@   ensures [C03] !okv ==> r0 == 0
 
 //@ func (*ifdReader).parseLensInfo
 //@   props C01 C02 C06
@@ -449,6 +484,25 @@ package exif2
 //@   requires ir.buffer != nil && r != nil
 //@   requires [C06] hdrFrom(h, r, pos(r) - 8)
 //@   ensures [C06] anchor(ir) == uint32(old(pos(r)) - 8) && ir.firstIfdOffset == h.FirstIfdOffset
+
+// C03: hemisphere / sea-level signs (Exif 2.32 4.6.6: 'S', 'W', altitude ref 1 mean negative)
+//@ func GPSInfo.Latitude
+//@   props C01 C03
+//@   pure
+//@   ensures [C03] g.latitudeRef ==> same(r0, -1 * g.latitude)
+//@   ensures [C03] !g.latitudeRef ==> same(r0, g.latitude)
+
+//@ func GPSInfo.Longitude
+//@   props C01 C03
+//@   pure
+//@   ensures [C03] g.longitudeRef ==> same(r0, -1 * g.longitude)
+//@   ensures [C03] !g.longitudeRef ==> same(r0, g.longitude)
+
+//@ func GPSInfo.Altitude
+//@   props C01 C03
+//@   pure
+//@   ensures [C03] g.altitudeRef ==> same(r0, -1 * g.altitude)
+//@   ensures [C03] !g.altitudeRef ==> same(r0, g.altitude)
 
 //@ func Parse
 //@   props C01 C02 C06
